@@ -127,62 +127,53 @@ func findHashSum(fn *ssa.Function) (h ssa.Value, sum *ssa.Call) {
 }
 
 func checkC13(c *Ctx, r *Report) {
-	r.Explanation = "Decided: (a) the exact sequence of byte strings fed to SM3 by ZA — [ENTL (2 bytes, big-endian uint16 of 8*len(id)), id, the parameter block, pubx, puby], each exactly once, on a loop-free path between sm3.New() and Sum(nil); (b) the parameter block is a||b||Gx||Gy of the resolved curve (decided under C18 and referenced); (c) lossless narrowing: every integer narrowing conversion of a length-derived value is dominated by guards that bound it to the target type (ENTL cannot wrap); (d) the id-/message-level entry points are exactly 'hash then digest-level call': SignZa/VerifyZa feed [za, msg] to SM3 and hand the digest with unchanged rand/priv resp. pubx/puby/r/s to SignHashed/VerifyHashed; Sign/Verify call ZA with (id, pubx, puby), test its error before anything else and return it. NOT decided: SM3 values (C04/C18), interoperability runs."
-	r.Trusted = []string{"go/ssa", "encoding/binary.BigEndian.PutUint16"}
+	r.Explanation = "Decided on the outcomes of a path-by-path interpretation in the protocol domain (checker/proto*.go; the SM3 object is the concatenation of the byte strings written to it): ZA-HASH-INPUT (ZA = SM3(ENTL || ID || a || b || Gx || Gy || xA || yA) with ENTL the 2-byte big-endian 8*len(id), not truncated), ZA-REFUSAL (an error exactly when the bit length does not fit 16 bits), and the wrappers: Sign / SignZa satisfy the signing rules of C02 and Verify / VerifyZa the verification rules of C03 with e = SM3(ZA || M) resp. SM3(za || M) (the functions are followed through their callees, so it does not matter whether they call the digest-level function or a shared helper); PARAMETER-BLOCK: the constant block equals a || b || Gx || Gy of the resolved curve literal. NOT decided: SM3 values (C04)."
+	r.Trusted = []string{"go/ssa", "encoding/binary.BigEndian.PutUint16", "contracts summarised in checker/proto2.go"}
 	p, err := LoadRepo(c.Repo, "amd64")
 	if err != nil {
 		r.Fatalf("%v", err)
 		return
 	}
-	// (a) ZA: the concatenation of everything written to the hash, in order, as canonical byte-string expressions
-	if fn := p.MustFunc(r, "sm2.ZA"); fn != nil {
-		h, sum := findHashSum(fn)
-		if h == nil || sum == nil {
-			r.Fatalf("unresolved anchor: sm3.New()/Sum in sm2.ZA")
-		} else {
-			args, probs := hashWrites(fn, h, sum)
-			f := NewFolder(p)
-			ps := newPathSym(p, fn, f)
-			ps.WalkTo(sum.Block())
-			var parts []string
-			for _, a := range args {
-				parts = append(parts, ps.S(a))
-			}
-			got := strings.Join(parts, "||")
-			zb, err := f.GlobalByName("sm2", "zBytes")
-			zName := "?"
-			if err == nil && zb.k == fBytes {
-				zName = fmt.Sprintf("bytes%d(#%s)", len(zb.bytes), new(bigInt).SetBytes(zb.bytes).Text(16))
-			}
-			okSeq := false
-			for _, entl := range []string{"be16((len(id) << 3))", "be16((len(id) * 8))", "be16((8 * len(id)))"} {
-				if got == entl+"||id||"+zName+"||pubx||puby" {
-					okSeq = true
-				}
-			}
-			short := got
-			if len(short) > 400 {
-				short = strings.Replace(short, zName, "<a||b||Gx||Gy>", 1)
-			}
-			r.Check(okSeq && len(probs) == 0, "HASH-INPUT-SEQUENCE", "sm2.ZA", p.InstrPos(sum), fmt.Sprintf("bytes fed to SM3, in order: %s; expected ENTL(be16 of 8*len(id))||id||<a||b||Gx||Gy>||pubx||puby%s", short, ifs(len(probs) > 0, "; "+strings.Join(probs, "; "))))
-			r.Check(isNilConst(sum.Call.Args[0]), "HASH-INPUT-SEQUENCE", "sm2.ZA Sum(nil)", p.InstrPos(sum), "the digest is Sum(nil): nothing is prepended")
-			for _, b := range fn.Blocks {
-				for _, in := range b.Instrs {
-					if ret, ok := in.(*ssa.Return); ok && isNilConst(retVals(ret)[1]) {
-						r.Check(retVals(ret)[0] == ssa.Value(sum), "HASH-INPUT-SEQUENCE", "sm2.ZA returns the digest", p.InstrPos(ret), "success return yields the Sum result")
-					}
-				}
+	protoZA(r, p)
+	protoWrappers(r, p)
+	c13ParameterBlock(r, p)
+	r.Floor("protocol_paths", 60)
+}
+
+// c13ParameterBlock: internal.GetZBytes() yields a || b || Gx || Gy of the curve literal
+func c13ParameterBlock(r *Report, p *Prog) {
+	f := NewFolder(p)
+	zb, err := f.GlobalByName("sm2", "zBytes")
+	if err != nil || zb.k != fBytes {
+		r.Undecided("PARAMETER-BLOCK", "sm2.zBytes", "sm2/sm2.go", fmt.Sprintf("initialiser does not fold to a byte string: %v", err))
+		return
+	}
+	var want []byte
+	ok := true
+	P, e1 := f.CurveInt("P")
+	B, e2 := f.CurveInt("B")
+	Gx, e3 := f.CurveInt("Gx")
+	Gy, e4 := f.CurveInt("Gy")
+	if e1 != nil || e2 != nil || e3 != nil || e4 != nil {
+		r.Fatalf("unresolved anchor: curve parameters")
+		return
+	}
+	a := new(bigInt).Sub(P, new(bigInt).SetInt64(3))
+	for _, v := range []*bigInt{a, B, Gx, Gy} {
+		buf := make([]byte, 32)
+		v.FillBytes(buf)
+		want = append(want, buf...)
+	}
+	if len(zb.bytes) != len(want) {
+		ok = false
+	} else {
+		for i := range want {
+			if want[i] != zb.bytes[i] {
+				ok = false
 			}
 		}
 	}
-	// (c) narrowing conversions
-	c13Narrowing(r, p)
-	// (d) wrappers
-	c13Wrapper(r, p, "sm2.SignZa", "SignHashed", []string{"param:rand", "param:priv", "digest"}, []string{"param:za", "param:msg"})
-	c13Wrapper(r, p, "sm2.VerifyZa", "VerifyHashed", []string{"param:pubx", "param:puby", "digest", "param:r", "param:s"}, []string{"param:za", "param:msg"})
-	c13IdLevel(r, p, "sm2.Sign", "SignZa", []string{"param:rand", "param:priv", "za", "param:msg"})
-	c13IdLevel(r, p, "sm2.Verify", "VerifyZa", []string{"param:pubx", "param:puby", "za", "param:msg", "param:r", "param:s"})
-	r.Floor("narrowing_conversions", 1)
+	r.Check(ok, "PARAMETER-BLOCK", "sm2.zBytes", "sm2/sm2.go", fmt.Sprintf("the %d-byte constant block is a || b || Gx || Gy (a = p-3) of the curve literal", len(zb.bytes)))
 }
 
 // c13Entl: the first Write argument is a 2-byte local array filled by BigEndian.PutUint16(arr[:], uint16(8*len(id))).
